@@ -11,6 +11,8 @@ import (
 	"iter"
 	"math/rand"
 	"net/http"
+	"net/http/httptest"
+	"net/url"
 	"sort"
 	"strings"
 
@@ -63,6 +65,10 @@ type reply struct {
 	Blocks []ipld.Block
 	Raw    []byte // when set, the body is these bytes
 	Status int
+	// "" = scripted channel; otherwise the reply is served by a real HTTP server through transport/http's channel:
+	// cl (Content-Length), chunked (flushed, length unknown), close (HTTP/1.0, close-delimited), short (body shorter than Content-Length)
+	Framing string
+	CT      string // Content-Type override
 	// what the harness knows about the message it built (for the model)
 	HasMsg   bool        // the first root is a decodable agent message block that is present
 	Report   [][2]string // (key string, receipt link string); nil when absent
@@ -150,7 +156,55 @@ func runClient(rp *reply, invs []invocation.Invocation, service ucan.Principal) 
 	}
 	hdr := http.Header{}
 	hdr.Set("Content-Type", car.ContentType)
-	ch := &scripted{status: rp.Status, body: body, hdr: hdr}
+	if rp.CT != "" {
+		hdr.Set("Content-Type", rp.CT)
+	}
+	var ch transport.Channel = &scripted{status: rp.Status, body: body, hdr: hdr}
+	if rp.Framing != "" {
+		srv := httptest.NewServer(http.HandlerFunc(func(w http.ResponseWriter, r *http.Request) {
+			io.Copy(io.Discard, r.Body)
+			ct := hdr.Get("Content-Type")
+			switch rp.Framing {
+			case "cl":
+				w.Header().Set("Content-Type", ct)
+				w.Header().Set("Content-Length", fmt.Sprint(len(body)))
+				w.WriteHeader(rp.Status)
+				w.Write(body)
+			case "chunked":
+				w.Header().Set("Content-Type", ct)
+				w.WriteHeader(rp.Status)
+				if f, ok := w.(http.Flusher); ok {
+					f.Flush()
+				}
+				half := len(body) / 2
+				w.Write(body[:half])
+				if f, ok := w.(http.Flusher); ok {
+					f.Flush()
+				}
+				w.Write(body[half:])
+			case "close", "short":
+				hj, ok := w.(http.Hijacker)
+				if !ok {
+					return
+				}
+				c, bw, err := hj.Hijack()
+				if err != nil {
+					return
+				}
+				defer c.Close()
+				fmt.Fprintf(bw, "HTTP/1.0 %d X\r\nContent-Type: %s\r\n", rp.Status, ct)
+				if rp.Framing == "short" {
+					fmt.Fprintf(bw, "Content-Length: %d\r\n", len(body)+64)
+				}
+				bw.WriteString("\r\n")
+				bw.Write(body)
+				bw.Flush()
+			}
+		}))
+		defer srv.Close()
+		u, _ := url.Parse(srv.URL)
+		ch = thttp.NewHTTPChannel(u)
+	}
 	var resp client.ExecutionResponse
 	guard(obs, "client.Execute", func() {
 		conn, _ := client.NewConnection(service, ch)
@@ -194,7 +248,7 @@ func runClient(rp *reply, invs []invocation.Invocation, service ucan.Principal) 
 			rlinks = append(rlinks, kv[1])
 		}
 	}
-	rdr, err := receipt.NewReceiptReader[ipld.Node, ipld.Node]([]byte("type Result struct {\n  ok optional Any\n  error optional Any\n}\n"))
+	rdr, err := receipt.NewReceiptReader[ipld.Node, ipld.Node]([]byte("type Result struct {\n  ok optional Any\n  err optional Any (rename \"error\")\n}\n"))
 	if err != nil {
 		rdr = nil
 	}
@@ -447,8 +501,50 @@ func c15Replies(seed int64, tier string) ([]*reply, []invocation.Invocation, uca
 		}
 		add(&reply{Label: fmt.Sprintf("raw-%d", i), Raw: mb})
 	}
-	var out []*reply
+	// 6. the same replies through a real HTTP server and transport/http's channel, in every framing
+	var overHTTP []*reply
+	nrawHTTP := 0
 	for _, rp := range replies {
+		if rp == nil {
+			continue
+		}
+		if rp.Raw != nil {
+			if nrawHTTP >= 60 {
+				continue
+			}
+			nrawHTTP++
+		}
+		if rp.Status < 200 || rp.Status == 301 || rp.Status > 599 {
+			continue // not final statuses a server can send / redirects are followed by net/http
+		}
+		for _, fr := range []string{"cl", "chunked", "close", "short"} {
+			if rp.Raw != nil && fr != []string{"cl", "chunked", "close", "short"}[nrawHTTP%4] {
+				continue
+			}
+			c := *rp
+			c.Framing = fr
+			c.Label = rp.Label + " http=" + fr
+			overHTTP = append(overHTTP, &c)
+		}
+	}
+	for _, st := range []int{201, 204, 400, 401, 404, 413, 429, 500, 502, 503, 504} {
+		for _, fr := range []string{"cl", "chunked", "close", "short"} {
+			for bi, bodyv := range [][]byte{nil, []byte("<html><body><h1>502 Bad Gateway</h1></body></html>"), goodBytes, bytes.Repeat([]byte("x"), 5000)} {
+				raw := bodyv
+				if raw == nil {
+					raw = []byte{}
+				}
+				ct := ""
+				if bi == 1 {
+					ct = "text/html"
+				}
+				overHTTP = append(overHTTP, &reply{Label: fmt.Sprintf("http-error status=%d framing=%s body=%d", st, fr, bi), Status: st, Framing: fr, Raw: raw, CT: ct,
+					Lookups: []ipld.Link{invs[0].Link()}})
+			}
+		}
+	}
+	var out []*reply
+	for _, rp := range append(replies, overHTTP...) {
 		if rp != nil {
 			out = append(out, rp)
 		}
@@ -482,6 +578,8 @@ func init() {
 			return linkIDs[s]
 		}
 		structured := 0
+		framings := map[string]int{}
+		direct := []map[string]any{}
 		for i, rp := range replies {
 			obs := runClient(rp, invs, service)
 			if len(obs.Panics) > 0 {
@@ -495,7 +593,14 @@ func init() {
 			if obs.ExecErr {
 				cls = "error"
 			}
-			if rp.Raw != nil {
+			if rp.Framing != "" {
+				framings[rp.Framing]++
+				if rp.Status != 200 && !obs.ExecErr && len(obs.Panics) == 0 {
+					direct = append(direct, map[string]any{"reply": i, "label": rp.Label, "what": "a non-200 HTTP status was returned as a response object"})
+				}
+			}
+			if rp.Raw != nil || rp.Framing == "short" {
+				// raw bodies and bodies cut short of their declared length: only "no panic" (and error for non-200) is required
 				classes["raw:"+cls]++
 				continue
 			}
@@ -549,7 +654,7 @@ func init() {
 			return err
 		}
 		return writeJSON(o.out, "stats.json", map[string]any{"replies": len(replies), "structured_replies": structured,
-			"classes": classes, "panic_list": panics, "distinct_signatures": sigs, "samples": samples})
+			"classes": classes, "http_framings": framings, "direct_violations": direct, "panic_list": panics, "distinct_signatures": sigs, "samples": samples})
 	}
 }
 
